@@ -3,7 +3,12 @@ use crate::{
     server_error::CompatError, streaming::batching::message_batch::RETAINED_BATCH_HEADER_LEN,
 };
 use std::io::SeekFrom;
+#[cfg(not(kani))]
 use tokio::io::{AsyncReadExt, AsyncSeekExt, AsyncWriteExt, BufReader, BufWriter};
+#[cfg(kani)]
+use iggy::verif_model::fs::io_model::{AsyncReadExt, AsyncSeekExt, AsyncWriteExt, BufReader, BufWriter};
+#[cfg(kani)]
+use iggy::verif_model::shim as tokio;
 
 // Same struct as RetainedMessageBatch, but without payload
 pub struct BatchHeader {
